@@ -52,6 +52,22 @@ func (p *c05) Init(tier string, seed int64) {
 			}
 		}
 	}
+	// whole numbers beyond 32 bits: the integer operators work on what a template number holds, not on its low half
+	big := []gen.Expr{&gen.ENum{"2147483648"}, &gen.ENum{"3000000000"}, &gen.ENum{"4294967296"}, &gen.ENum{"4294967297"}, &gen.ENum{"6442450944"},
+		&gen.ENum{"9007199254740991"}, &gen.EGroup{&gen.EUn{"-", &gen.ENum{"3000000000"}}}, &gen.EName{"n9"}, &gen.EStr{"4294967296"}}
+	for _, op := range []string{"%", "b-and", "b-or", "b-xor", "//", "+", "-", "*", "==", "<", "~", "in"} {
+		for _, l := range big {
+			for _, r := range append(append([]gen.Expr{}, big...), &gen.ENum{"1"}, &gen.ENum{"7"}, &gen.ENum{"10"}, &gen.ENum{"1000"}, &gen.ENum{"65536"}) {
+				p.table = append(p.table, &gen.EBin{op, l, r}, &gen.EBin{op, r, l})
+			}
+		}
+	}
+	// patterns made of one regular-expression construct each (and of none): a pattern is a regular expression whatever it is made of
+	for _, pat := range []string{"a{2}", "a{1,}", "xb{0}y", "a{2,3}$", "a.c", "a|b", "a?b", "[ab]c", "(ab)c", "ab*", "b+", "^", "$", "^b", "ab", "", "a{", "{2}", "}", "a{2}{2}", "aa", "a{2", "é{2}", "(?i)AB", "(?s)a.c", "a b", "a-c", "a,b", "a:b", "a#b", "a/b", "a=b", "a&b", "a<b", "a!b", "a%b", "a~b", "a@b", "a;b", "a_b"} {
+		for _, sub := range []string{"aa", "a", "a{2}", "ab", "abc", "", "b", "xy", "xby", "aaa", "a|b", "a.c", "a\nc", "abcabc", "a{1,}", "a{2}{2}", "aaaa", "a{", "{2}", "a?b", "éé", "é{2}", "AB", "ba", "ac", "(ab)c", "[ab]c", "ab*", "b+", "^b", "a b", "a-c", "a,b", "a:b", "a#b", "a/b", "a=b", "a&b", "a<b", "a!b", "a%b", "a~b", "a@b", "a;b", "a_b"} {
+			p.table = append(p.table, &gen.EBin{"matches", &gen.EStr{sub}, &gen.EStr{pat}})
+		}
+	}
 	for _, op := range []string{"-", "+", "not"} {
 		for _, x := range ops {
 			p.table = append(p.table, &gen.EUn{op, x})
